@@ -87,7 +87,11 @@ func randomProgram(r *rand.Rand) []Op {
 		case x == 0:
 			prog = append(prog, Op{Op: "Alloc"})
 		case x <= 3:
-			prog = append(prog, Op{Op: "Put", N: num(), G: r.Intn(2), V: val()})
+			if r.Intn(4) == 0 {
+				prog = append(prog, Op{Op: "PutStm", N: num(), G: r.Intn(2), V: val()})
+			} else {
+				prog = append(prog, Op{Op: "Put", N: num(), G: r.Intn(2), V: val()})
+			}
 		case x <= 5 && !inStream:
 			prog = append(prog, Op{Op: "OpenStream", N: num(), G: r.Intn(2), V: val(), Lg: []string{"none", "none", "none", "right"}[r.Intn(4)]})
 			inStream = true
